@@ -1,0 +1,85 @@
+// MIT License
+//
+// Copyright (c) 2022-2026 GoAkt Team
+//
+// Permission is hereby granted, free of charge, to any person obtaining a copy
+// of this software and associated documentation files (the "Software"), to deal
+// in the Software without restriction, including without limitation the rights
+// to use, copy, modify, merge, publish, distribute, sublicense, and/or sell
+// copies of the Software, and to permit persons to whom the Software is
+// furnished to do so, subject to the following conditions:
+//
+// The above copyright notice and this permission notice shall be included in all
+// copies or substantial portions of the Software.
+//
+// THE SOFTWARE IS PROVIDED "AS IS", WITHOUT WARRANTY OF ANY KIND, EXPRESS OR
+// IMPLIED, INCLUDING BUT NOT LIMITED TO THE WARRANTIES OF MERCHANTABILITY,
+// FITNESS FOR A PARTICULAR PURPOSE AND NONINFRINGEMENT. IN NO EVENT SHALL THE
+// AUTHORS OR COPYRIGHT HOLDERS BE LIABLE FOR ANY CLAIM, DAMAGES OR OTHER
+// LIABILITY, WHETHER IN AN ACTION OF CONTRACT, TORT OR OTHERWISE, ARISING FROM,
+// OUT OF OR IN CONNECTION WITH THE SOFTWARE OR THE USE OR OTHER DEALINGS IN THE
+// SOFTWARE.
+
+//go:build verif
+
+package actor
+
+// verifGrainPID resolves the grain process currently registered for identity.
+func verifGrainPID(sys ActorSystem, identity *GrainIdentity) *grainPID {
+	x, ok := sys.(*actorSystem)
+	if !ok || identity == nil {
+		return nil
+	}
+	pid, ok := x.grains.Get(identity.String())
+	if !ok {
+		return nil
+	}
+	return pid
+}
+
+// VerifGrainSchedStateOf returns the address of the dispatch state of the grain
+// process registered for identity (the object of the ds.* and turn.* hooks), or
+// nil when no process is registered. Verification harness only.
+func VerifGrainSchedStateOf(sys ActorSystem, identity *GrainIdentity) any {
+	if pid := verifGrainPID(sys, identity); pid != nil {
+		return &pid.schedState
+	}
+	return nil
+}
+
+// VerifGrainSchedValue returns the dispatch state of the registered grain
+// process (0 idle, 1 scheduled, 2 processing), or -1 when none is registered.
+func VerifGrainSchedValue(sys ActorSystem, identity *GrainIdentity) int {
+	if pid := verifGrainPID(sys, identity); pid != nil {
+		return int(pid.schedState.Load())
+	}
+	return -1
+}
+
+// VerifGrainMailboxOf returns the user mailbox of the registered grain process
+// (the object of the gm.* hooks), or nil.
+func VerifGrainMailboxOf(sys ActorSystem, identity *GrainIdentity) any {
+	if pid := verifGrainPID(sys, identity); pid != nil {
+		return pid.mailbox
+	}
+	return nil
+}
+
+// VerifGrainActive reports whether a process is registered for identity and
+// whether it is activated.
+func VerifGrainActive(sys ActorSystem, identity *GrainIdentity) (registered, active bool) {
+	pid := verifGrainPID(sys, identity)
+	if pid == nil {
+		return false, false
+	}
+	return true, pid.isActive()
+}
+
+// VerifGrainMailboxLen returns the number of queued user messages of the
+// registered grain process, or -1.
+func VerifGrainMailboxLen(sys ActorSystem, identity *GrainIdentity) int {
+	if pid := verifGrainPID(sys, identity); pid != nil {
+		return int(pid.mailbox.Len())
+	}
+	return -1
+}
